@@ -35,15 +35,25 @@ class GeminiClientProtocol(asyncio.Protocol):
         meta: Response metadata string.
     """
 
-    def __init__(self, url: str, response_future: asyncio.Future):
+    def __init__(
+        self,
+        url: str,
+        response_future: asyncio.Future,
+        send_on_connect: bool = True,
+    ):
         """Initialize the client protocol.
 
         Args:
             url: The Gemini URL to request.
             response_future: Future to set with the final GeminiResponse.
+            send_on_connect: Send the request as soon as the connection is made
+                (default). If False, nothing is sent until send_request() is
+                called - used to verify the peer certificate first (TOFU).
         """
         self.url = url
         self.response_future = response_future
+        self.send_on_connect = send_on_connect
+        self.request_sent = False
         self.transport: asyncio.Transport | None = None
         self.buffer = b""
         self.header_received = False
@@ -60,9 +70,14 @@ class GeminiClientProtocol(asyncio.Protocol):
         """
         self.transport = transport  # type: ignore[assignment]
 
-        # Send Gemini request (just the URL + CRLF)
-        request = f"{self.url}\r\n"
-        if self.transport:
+        if self.send_on_connect:
+            self.send_request()
+
+    def send_request(self) -> None:
+        """Send the Gemini request (just the URL + CRLF), once."""
+        if self.transport and not self.request_sent:
+            self.request_sent = True
+            request = f"{self.url}\r\n"
             self.transport.write(request.encode("utf-8"))
 
     def data_received(self, data: bytes) -> None:
@@ -264,6 +279,7 @@ class TitanClientProtocol(asyncio.Protocol):
         titan_url: str,
         content: bytes,
         response_future: asyncio.Future,
+        send_on_connect: bool = True,
     ):
         """Initialize the Titan client protocol.
 
@@ -271,10 +287,15 @@ class TitanClientProtocol(asyncio.Protocol):
             titan_url: The Titan URL with parameters (;size=N;mime=TYPE;token=TOKEN).
             content: The content bytes to upload.
             response_future: Future to set with the final GeminiResponse.
+            send_on_connect: Send the request as soon as the connection is made
+                (default). If False, nothing is sent until send_request() is
+                called - used to verify the peer certificate first (TOFU).
         """
         self.titan_url = titan_url
         self.content = content
         self.response_future = response_future
+        self.send_on_connect = send_on_connect
+        self.request_sent = False
         self.transport: asyncio.Transport | None = None
         self.buffer = b""
         self.header_received = False
@@ -291,7 +312,13 @@ class TitanClientProtocol(asyncio.Protocol):
         """
         self.transport = transport  # type: ignore[assignment]
 
-        if self.transport:
+        if self.send_on_connect:
+            self.send_request()
+
+    def send_request(self) -> None:
+        """Send the Titan request (URL + CRLF + content), once."""
+        if self.transport and not self.request_sent:
+            self.request_sent = True
             # Send Titan request: URL + CRLF + content
             request_line = f"{self.titan_url}\r\n".encode()
             self.transport.write(request_line)
